@@ -157,6 +157,23 @@ Example spell_x_example :
   exists t, spell_x g_one true (MRealistic [([97;98], [[120;121]; [122]])]%N) 3 [97;98;32;99]%N = ROk t /\ t <> [97;98;32;99]%N.
 Proof. split; [vm_compute; reflexivity|]. eexists. split; [vm_compute; reflexivity|discriminate]. Qed.
 
+(** the misspellings file read from its bytes: a key given twice keeps its LAST list ([HashMap::insert]), the other keys are
+    untouched *)
+Theorem missp_last_wins : forall m k v,
+  miss_lookup (miss_put k v m) k = Some v /\
+  forall w, nlist_eqb w k = false -> miss_lookup (miss_put k v m) w = miss_lookup m w.
+Proof. exact miss_put_spec. Qed.
+Print Assumptions missp_last_wins.
+
+(** the bytes  {"ab": ["first"], "c": [], "ab":["xy" , "z"]}  (a key twice, whitespace) give ab -> [xy; z], c -> [];
+    a file whose value is no list of strings, and one with invalid UTF-8, are refused *)
+Example missp_of_bytes_example :
+  missp_of_bytes [123;34;97;98;34;58;32;91;34;102;105;114;115;116;34;93;44;32;34;99;34;58;32;91;93;44;32;34;97;98;34;58;91;34;120;121;34;32;44;32;34;122;34;93;125]%N
+  = Some [([97;98], [[120;121]; [122]]); ([99], [])]%N
+  /\ missp_of_bytes [123;34;97;34;58;91;49;93;125]%N = None
+  /\ missp_of_bytes [123;34;97;255;34;58;91;93;125]%N = None.
+Proof. vm_compute. repeat split. Qed.
+
 (** * ChatDecode *)
 (** a role template with exactly one {text} (what the Python constructor [ChatTemplate::new] demands) at position k: a
     message is  template[..k] ++ text ++ template[k+6..]  — the text is never scanned again, whatever it contains *)
@@ -186,6 +203,12 @@ Theorem chat_messages_sequential : forall roles msgs acc,
   end.
 Proof. exact chat_msgs_acc. Qed.
 Print Assumptions chat_messages_sequential.
+
+(** the typed parse inverts the printer: what [serde_json::to_string(&Vec<ChatMessage>)] writes is decoded to exactly that
+    list, whatever the texts and role names contain (quotes, backslashes, control characters, "{text}", non-ASCII) *)
+Theorem chat_roundtrip : forall l, chat_of_text (print_chat l) = Some l.
+Proof. exact chat_roundtrip_l. Qed.
+Print Assumptions chat_roundtrip.
 
 (** the crate's own unit test (preprocessing.rs, test_chat_decode, second half):
     [{"role": "user", "text": "Hello"}, {"role": "bot", "text": "Hi"}]  with  <start> / "User: {text}\n" / "Bot: {text}" /
